@@ -376,6 +376,16 @@ def library() -> List[Dict[str, Any]]:
          "cm": {"cat": "LINEAR", "i2p": [{"lo": 0, "hi": 100, "num": [0, 1], "den": [1]}]}},
         {"name": "pl_lib", "dct": {"k": "PLEN", "base": "A_BYTEFIELD", "key": "lk", "key_id": "L.LK.S_lk"}},
         {"kind": "struct", "name": "S_lk", "params": [P("LENGTH-KEY", "lk", dop="u8", id="L.LK.S_lk", byte=0), P("VALUE", "v", dop="pl_lib", byte=1)]},
+        {"kind": "envdesc", "name": "ed_lib", "param": "dtc", "envdatas": ["env_all", "env_spec"]},
+        {"kind": "struct", "name": "S_dtcenv", "params": [P("VALUE", "dtc", dop="dtc3"), P("VALUE", "env", dop="ed_lib")]},
+        {"kind": "eopfield", "name": "EOPDE", "of": "S_dtcenv"},
+        {"kind": "eopfield", "name": "EOPLK", "of": "S_lk"},
+        {"name": "u6", "dct": std("A_UINT32", 6)},
+        {"name": "pl_kb2", "dct": {"k": "PLEN", "base": "A_BYTEFIELD", "key": "lk", "key_id": "L.LK.S_kb2"}},
+        {"kind": "struct", "name": "S_kb2", "params": [P("LENGTH-KEY", "lk", dop="u6", id="L.LK.S_kb2", bit=2), P("VALUE", "v", dop="pl_kb2")]},
+        {"name": "pl_kb4", "dct": {"k": "PLEN", "base": "A_BYTEFIELD", "key": "lk", "key_id": "L.LK.S_kb4"}},
+        {"kind": "struct", "name": "S_kb4", "params": [P("LENGTH-KEY", "lk", dop="u8", id="L.LK.S_kb4", bit=4), P("VALUE", "v", dop="pl_kb4")]},
+        {"name": "lindef", "dct": U8, "phys": "A_UINT32", "cm": {"cat": "LINEAR", "i2p": [{"lo": 0, "hi": 100, "num": [0, 2], "den": [1]}], "default_phys": 9999}},
         {"kind": "struct", "name": "S_dyn", "params": [P("VALUE", "a", dop="u8"), P("VALUE", "s", dop="bz")]},
         {"kind": "eopfield", "name": "EOPD", "of": "S_dyn"},
         {"kind": "dlfield", "name": "DLD", "of": "S_dyn", "offset": 1, "count": {"byte": 0, "dop": "u8"}},
@@ -453,7 +463,8 @@ def templates() -> Dict[str, Any]:
     reg("EMLAST", None, lambda i: [{f"em{i}": []}, {f"em{i}": [_item(1, 2), _item(3, 4)]}], lambda i: [P("VALUE", f"em{i}", dop="EM")], last_only=True)
     reg("EMCC", None, lambda i: [{f"en{i}": []}, {f"en{i}": [_item(1, 2)]}],
         lambda i: [P("VALUE", f"en{i}", dop="EM"), P("CODED-CONST", f"mk{i}", dct=U8, value=255)], dyn_end=True)
-    reg("MUXd", None, lambda i: [{f"mx{i}": ("c0", _item(1, 2))}, {f"mx{i}": ("c1", {"a": 3, "b": 0x1234})}, {f"mx{i}": ("dflt", {"a": 4})}],
+    reg("MUXd", None, lambda i: [{f"mx{i}": ("c0", _item(1, 2))}, {f"mx{i}": ("c1", {"a": 3, "b": 0x1234})}, {f"mx{i}": ("dflt", {"a": 4})},
+                                 {f"mx{i}": (1, _item(1, 2))}, {f"mx{i}": (5, {"a": 3, "b": 0x1234})}, {f"mx{i}": (9, {"a": 4})}],
         lambda i: [P("VALUE", f"mx{i}", dop="MUXd")])
     reg("MUXn", None, lambda i: [{f"my{i}": ("c0", _item(1, 2))}, {f"my{i}": ("c1", {"a": 3, "b": 0x1234})}], lambda i: [P("VALUE", f"my{i}", dop="MUXn")])
     reg("MUXe", None, lambda i: [{f"mz{i}": ("c0", _item(1, 2))}, {f"mz{i}": ("c1", {})}, {f"mz{i}": ("dflt", {"a": 4})}],
@@ -467,6 +478,14 @@ def templates() -> Dict[str, Any]:
     reg("DLD", None, lambda i: [{f"dd{i}": [_d(1, b"\x41"), _d(2, b"")]}, {f"dd{i}": [_d(1, b"\x41\x42\x43")]}], lambda i: [P("VALUE", f"dd{i}", dop="DLD")])
     reg("EMD", None, lambda i: [{f"emd{i}": [_d(1, b"\x41"), _d(2, b"")]}, {f"emd{i}": [_d(7, b"")]}], lambda i: [P("VALUE", f"emd{i}", dop="EMD")], last_only=True)
     reg("MUXD", None, lambda i: [{f"mxd{i}": ("c0", _d(1, b"\x41"))}, {f"mxd{i}": ("c0", _d(1, b""))}, {f"mxd{i}": ("c1", _item(1, 2))}], lambda i: [P("VALUE", f"mxd{i}", dop="MUXD")])
+    reg("EOPDE", None, lambda i: [{f"ede{i}": [{"dtc": 1, "env": {"e_all": 5}}, {"dtc": 0x123456, "env": {"e_all": 6, "e_spec": 0x1234}}]},
+                                  {f"ede{i}": [{"dtc": 0x123456, "env": {"e_all": 6, "e_spec": 0x1234}}, {"dtc": 1, "env": {"e_all": 5}}, {"dtc": 1, "env": {"e_all": 7}}]}],
+        lambda i: [P("VALUE", f"ede{i}", dop="EOPDE")], last_only=True)
+    reg("EOPLK", None, lambda i: [{f"elk{i}": [{"v": b"\x01\x02"}, {"v": b""}, {"v": b"\x03"}]}, {f"elk{i}": [{"v": b"\x09"}]}],
+        lambda i: [P("VALUE", f"elk{i}", dop="EOPLK")], last_only=True)
+    reg("SKB2", None, lambda i: [{f"kb{i}": {"v": b"\x01\x02\x03\x04"}}, {f"kb{i}": {"v": b""}}, {f"kb{i}": {"v": b"\x07"}}], lambda i: [P("VALUE", f"kb{i}", dop="S_kb2")])
+    reg("SKB4", None, lambda i: [{f"kc{i}": {"v": b"\x01\x02"}}, {f"kc{i}": {"v": b""}}], lambda i: [P("VALUE", f"kc{i}", dop="S_kb4")])
+    reg("VLDEF", 1, lambda i: [{f"vd{i}": 0}, {f"vd{i}": 200}], lambda i: [P("VALUE", f"vd{i}", dop="lindef")])
     reg("DTC", 3, lambda i: [{f"dt{i}": 0x123456}, {f"dt{i}": "P0001"}], lambda i: [P("VALUE", f"dt{i}", dop="dtc3")])
     reg("DTCENV", None, lambda i: [{f"dtc{i}": 1, f"env{i}": {"e_all": 5}}, {f"dtc{i}": 0x123456, f"env{i}": {"e_all": 5, "e_spec": 0x1234}}],
         lambda i: [P("VALUE", f"dtc{i}", dop="dtc3"), P("VALUE", f"env{i}", dop=f"@ENV@{i}")])
@@ -481,7 +500,7 @@ def templates() -> Dict[str, Any]:
 
 
 SIGMA_FULL = ["CC8", "CC16L", "CCNIB", "PC", "V8", "V12b", "V8b4", "VF32", "SLK", "VLIN", "VDEF", "VTT", "RES8", "RES4", "SYS", "LK", "TKS", "TKSROW", "SFLAT",
-              "SSUB", "SNEST", "SSIZED", "SF2", "SF2p", "DL1", "DL2", "EOP", "EMLAST", "EMCC", "MUXd", "MUXn", "MUXe", "SDYN", "EOPD", "DLD", "EMD", "MUXD", "DTC", "DTCENV", "BZ", "BEOP", "LEAD"]
+              "SSUB", "SNEST", "SSIZED", "SF2", "SF2p", "DL1", "DL2", "EOP", "EMLAST", "EMCC", "MUXd", "MUXn", "MUXe", "SDYN", "EOPD", "DLD", "EMD", "MUXD", "EOPDE", "EOPLK", "SKB2", "SKB4", "VLDEF", "DTC", "DTCENV", "BZ", "BEOP", "LEAD"]
 SIGMA_3 = ["CC8", "V8", "V12b", "V8b4", "VDEF", "RES8", "LK", "TKS", "SFLAT", "SSIZED", "SF2p", "DL1", "EOP", "MUXd", "DTCENV", "BZ", "SDYN", "EOPD"]
 SIGMA_4 = ["CC8", "V12b", "SSIZED", "DL1", "MUXd", "BZ"]
 MODES = ["auto", "at", "hole"]
@@ -496,7 +515,7 @@ def build_program(seq: List[Tuple[str, str]], kind: str = "REQUEST", request: Op
                   max_assign: int = 48) -> Optional[Dict[str, Any]]:
     """seq: list of (template name, mode). Returns None if the sequence is ill-formed by the REFERENCE rules."""
     T = templates()
-    ml = {"auto": "a", "at": "e", "hole": "h", "overlap": "o"}
+    ml = {"auto": "a", "at": "e", "hole": "h", "overlap": "o", "far": "f", "zero": "z"}
     pid = ("q" if kind == "REQUEST" else "p") + "_" + "_".join(f"{t}{ml[m]}" for t, m in seq)
     pid = pid.replace("-", "")
     params: List[Dict[str, Any]] = []
@@ -525,13 +544,19 @@ def build_program(seq: List[Tuple[str, str]], kind: str = "REQUEST", request: Op
             start = cursor
         elif mode == "hole":
             start = cursor + 1  # type: ignore[operator]
+        elif mode == "far":
+            if cursor is not None and cursor > 12:
+                return None
+            start = 12  # an explicit BYTE-POSITION well behind everything else (bytes in between are undescribed)
+        elif mode == "zero":
+            start = 0  # an explicit BYTE-POSITION in front of what was listed before
         elif mode == "overlap":
             if prev_start is None:
                 return None
             start = prev_start
         else:
             raise ValueError(mode)
-        if mode in ("at", "hole", "overlap"):
+        if mode in ("at", "hole", "overlap", "far", "zero"):
             if t["rel"]:
                 for (pi, off) in t["rel"]:
                     ps[pi]["byte"] = start + off  # type: ignore[operator]
@@ -576,6 +601,10 @@ def build_program(seq: List[Tuple[str, str]], kind: str = "REQUEST", request: Op
     return prog
 
 
+def templates_static_last_only(name: str) -> bool:
+    return bool(templates()[name]["last_only"])
+
+
 def layer_c_programs(quick: bool, overlap: bool = False) -> List[Dict[str, Any]]:
     progs: List[Dict[str, Any]] = []
     seen = set()
@@ -609,6 +638,13 @@ def layer_c_programs(quick: bool, overlap: bool = False) -> List[Dict[str, Any]]
     if not quick:
         for seq in itertools.product(SIGMA_4, repeat=4):
             add([(t, "auto") for t in seq], max_assign=16)
+    # explicit positions that do not follow the listing order: a follower far behind a (possibly dynamic) object, and an
+    # object placed in front of an earlier-listed far parameter, followed by a cursor-positioned parameter
+    for t in SIGMA_FULL:
+        add([("CC8", "auto"), (t, "auto"), ("V8", "far")])
+        if not templates_static_last_only(t):
+            add([("V8", "far"), (t, "zero"), ("V8", "auto")])
+            add([("CC8", "far"), (t, "zero"), ("V12b", "auto")])
     # responses
     rq = bytes([0x22, 0xF1, 0x90])
     for body in (["V8"], ["SFLAT"], ["MUXd"], ["DL1"], ["BZ"], ["V8", "EOP"]):
